@@ -133,6 +133,7 @@ def suites(tier: str) -> t.List[Suite]:
     big = tier == 'thorough'
     leaves = 8 if big else 4
     return [
+        Suite('hash-hostile', check, strategy=lambda: gen.conv_cases(gen.hash_hostile_specs()), examples=2000 if big else 150, budget_s=120 if big else 20, render=gen.render_case),
         Suite('twopass', check, strategy=lambda: gen.conv_cases(gen.all_type_specs(leaves)), examples=8000 if big else 600,
               budget_s=480 if big else 40, render=gen.render_case),
     ]
